@@ -70,12 +70,28 @@ def run(tier):
                         orc.cache[key] = None if good else 'output of this schedule does not decompress to the input: %s(%s) %d bytes' % (r['kind'], r['code'], r['stdout_len'])
                     return orc.cache[key]
                 orc.cache = {}
-                ex.add('schedules-compress', 'fast', args, data, orc, 'shape=%s W=%d %s' % (sp, W, ' '.join(mode)), {})
+                ex.add('schedules-compress', 'fast', args, data, orc, 'shape=%s W=%d %s' % (sp, W, ' '.join(mode)), {'wenv': 'short1,half'})
     plain = inputs.kind('N', 250000)
     s3 = bz2.compress(plain, 1)
     for W in ([2] if quick else [2, 3]):
         ex.add('schedules-decompress', 'fast', ['-n%d' % W, '-d'], s3, sched.expect_exact(0, plain), '3blk W=%d' % W,
                {'setenv': {'LBZIP2_VERIF_IN_GRANUL': '32', 'LBZIP2_VERIF_OUT_GRANUL': '30000'}})
+    # output that accepts only part of each write() (a pipe with a slow reader): both directions, whole run
+    fr = sched.Explorer(chk, par=4, jobs=4, scratch=ex.dir)
+    for sp in ['ZE', 'EZs']:
+        data = inputs.shape(sp)
+        p0 = ex.file_for(data)
+        o0 = p0 + '.wf.out'
+        lbzx.run('fast', ['-n2', '-1'], stdin_path=p0, save_stdout=o0)
+        comp = open(o0, 'rb').read()
+        for wf in (1 + len(comp) // 300, 4096):
+            fr.add('write-fragmentation', 'fast', ['-n2', '-1'], data, sched.expect_exact(0, comp), 'compress shape=%s wfrag=%d' % (sp, wf), {'wfrag': wf})
+        for wf in (30000, 65536, 100001):
+            fr.add('write-fragmentation', 'fast', ['-n2', '-d'], comp, sched.expect_exact(0, data), 'decompress shape=%s wfrag=%d' % (sp, wf), {'wfrag': wf})
+            fr.add('write-fragmentation', 'fast', ['-n2', '-d'], comp, sched.expect_exact(0, data), 'decompress shape=%s wfrag=%d out_granul=50000' % (sp, wf),
+                   {'wfrag': wf, 'setenv': {'LBZIP2_VERIF_OUT_GRANUL': '50000'}})
+    fr.run_pass(1)
+    fr.finish_cov('')
     done = 0
     for d in range(1, (2 if quick else 3) + 1):
         if not ex.run_pass(d):
